@@ -186,10 +186,17 @@ def run(pid, tier, seed, replay):
     if rc != 0:
         ck.problem("tie", "harness run ended abnormally rc=%d: %s" % (rc, se[-1500:]))
     # ---- the same checks driven through the real impl TreeNode for Expr
-    ok, out, dt = vlib.cargo_build("h_expr", bin="c42e")
-    ck.log("cargo build h_expr c42e: ok=%s (%.0fs)" % (ok, dt))
     ecases = []
-    if not ok:
+    skip_expr = os.environ.get("VERIF_C42_SKIP_EXPR") == "1"   # development knob (mutation testing); never set by ./check
+    if skip_expr:
+        ck.notes.append("VERIF_C42_SKIP_EXPR=1: Expr harness skipped")
+        ok, out, dt = True, "", 0.0
+    else:
+        ok, out, dt = vlib.cargo_build("h_expr", bin="c42e")
+    ck.log("cargo build h_expr c42e: ok=%s (%.0fs)" % (ok, dt))
+    if skip_expr:
+        pass
+    elif not ok:
         ck.problem("tie", "Expr harness build failed:\n" + out[-3000:])
     else:
         rc, so, se, dt = vlib.run_bin("c42e", ["--seed", seed, "--n", 120 if tier == "quick" else 4000])
